@@ -149,7 +149,7 @@ def arity (op : Nat) : Nat :=
   else if 0x64 ≤ op ∧ op ≤ 0x6B then 1
   else if 0x6C ≤ op ∧ op ≤ 0x6F then 0
   else if op = 0x70 then 2
-  else if op = 0x76 ∨ op = 0x77 ∨ op = 0x7E ∨ op = 0x85 ∨ op = 0x88 ∨ op = 0x8D then 1
+  else if op = 0x76 ∨ op = 0x77 ∨ op = 0x7E ∨ op = 0x7F ∨ op = 0x85 ∨ op = 0x88 ∨ op = 0x8D then 1
   else if op = 0x86 ∨ op = 0x87 ∨ op = 0x8B ∨ op = 0x8C ∨ op = 0x8E then 2
   else if 0xC0 ≤ op ∧ op ≤ 0xDF then 1
   else if 0xE0 ≤ op ∧ op ≤ 0xFF then 2
@@ -391,7 +391,7 @@ def effect (A : Arith) (ped : Bool) (op : Nat) (args : List Int) (f : F) : UR :=
   -- MPPEM / MPS (`ppem.saturating_mul(64)`)
   else if op = 0x4B then out [(g.ppem : Int)]
   else if op = 0x4C then out [if (g.ppem : Int) * 64 > 2147483647 then 2147483647 else (g.ppem : Int) * 64]
-  -- FLIPON / FLIPOFF (auto_flip: no check depends on it), NROUND, AA
+  -- FLIPON / FLIPOFF (auto_flip: no check depends on it), NROUND, AA (its one argument is popped by `arity`)
   else if op = 0x4D ∨ op = 0x4E ∨ (0x6C ≤ op ∧ op ≤ 0x6F) ∨ op = 0x7F then nop
   -- LT LTEQ GT GTEQ EQ NEQ: `b = pop, a = pop`
   else if 0x50 ≤ op ∧ op ≤ 0x55 then
